@@ -33,7 +33,7 @@ class Budget(Exception):
 
 def cases(seed, tier):
     rng = random.Random('c18-%s' % seed)
-    n = 640 if tier == 'quick' else 16000
+    n = 3200 if tier == 'quick' else 32000
     per = 40 if tier == 'quick' else 250
     out = []
     for i in range(0, n, per):
